@@ -455,8 +455,19 @@ def norm_family(which):
               if r['status'] != 'unsat':
                 break
           else:
+            # lemma chaining: the reference variance is a mean of squares, proved
+            # non-negative on its own (cheap) and then assumed, so that the clip
+            # max(0, E[x^2] - E[x]^2) needs no non-linear sign reasoning
+            nonneg = []
+            for e in wv.data:
+              sol = z3.Solver()
+              sol.set('timeout', 30000)
+              sol.add(*(list(extra) + list(ex)))
+              sol.add(sym._num(e.t) < 0)
+              if str(sol.check()) == 'unsat':
+                nonneg.append(sym._num(e.t) >= 0)
             r = _prove([(label + ' mean', mu, wm), (label + ' var', var, wv)], t0,
-                       extra + ex)
+                       list(extra) + list(ex) + nonneg)
           if r['status'] != 'unsat':
             return r
           cases.append((label, S(0), S(0)))
@@ -831,10 +842,16 @@ def conv_family(pad_i):
   pads = ['SAME', 'VALID', 'CIRCULAR', 'REFLECT', 'CAUSAL', (1, 2)]
   pad = pads[pad_i]
   with SymEnv():
-    for K, stride, kdil, idil, groups, use_bias in [
+    grid = [
         (1, 1, 1, 1, 1, True), (2, 1, 1, 1, 1, True), (3, 1, 1, 1, 1, False),
         (3, 2, 1, 1, 1, True), (2, 1, 2, 1, 1, True), (3, 1, 1, 1, 2, True),
-        (2, 1, 1, 2, 1, True), (3, 2, 2, 1, 2, False)]:
+        (2, 1, 1, 2, 1, True), (3, 2, 2, 1, 2, False)]
+    if TIER['t'] == 'thorough':
+      grid += [(4, 1, 1, 1, 1, True), (5, 1, 1, 1, 1, False), (4, 2, 1, 1, 1, True),
+               (2, 3, 1, 1, 1, True), (3, 3, 1, 1, 1, True), (3, 1, 2, 1, 1, True),
+               (2, 2, 2, 1, 2, True), (4, 1, 1, 1, 2, False), (2, 1, 1, 3, 1, True),
+               (3, 2, 1, 2, 1, False), (2, 1, 3, 1, 1, True), (5, 2, 1, 1, 1, True)]
+    for K, stride, kdil, idil, groups, use_bias in grid:
       if idil != 1 and isinstance(pad, str):
         continue
       if pad in ('CIRCULAR', 'REFLECT') and stride != 1:
@@ -924,6 +941,14 @@ def ref_convT1d(x, k, b, stride, kdil, pad, tk):
 
 CONVT_GRID = [(1, 1, 1), (2, 1, 1), (3, 1, 1), (4, 1, 1), (2, 2, 1), (3, 2, 1),
               (4, 2, 1), (2, 3, 1), (3, 3, 1), (2, 1, 2), (3, 2, 2), (2, 4, 1)]
+CONVT_GRID_THOROUGH = [(5, 1, 1), (5, 2, 1), (4, 3, 1), (3, 1, 2), (2, 2, 2),
+                       (4, 2, 2), (3, 3, 2), (2, 5, 1), (5, 3, 1), (3, 4, 1),
+                       (4, 1, 2), (3, 1, 3), (2, 3, 2), (6, 1, 1), (6, 2, 1)]
+TIER = {'t': 'quick'}
+
+
+def _convt_grid():
+  return CONVT_GRID + (CONVT_GRID_THOROUGH if TIER['t'] == 'thorough' else [])
 
 
 def convT_family(which):
@@ -936,7 +961,7 @@ def convT_family(which):
   with SymEnv():
     if which < 4:
       pad = ['SAME', 'VALID', (1, 2), 'CIRCULAR'][which]
-      for K, stride, kdil in CONVT_GRID:
+      for K, stride, kdil in _convt_grid():
         for tk in ((False, True) if which < 3 else (False,)):
           C, F, Lx = 2, 1, 3
           x = A.sym('x', (1, Lx, C))
@@ -983,7 +1008,7 @@ def convT_family(which):
             cases.append(('masked ' + label, lm.apply({'params': p}, x), ref_convT1d(
                 x, km, b if use_bias else None, stride, kdil, pad, tk)))
     else:
-      for K, stride, kdil in CONVT_GRID:
+      for K, stride, kdil in _convt_grid():
         for C, F in ((1, 1),) + (((2, 1),) if (K, stride) == (2, 1) else ()):
           Ly = 3
           Lin = Ly * stride
@@ -1093,6 +1118,8 @@ def replay_family(case=None, family=None, arg=None, model=None, **kw):
   and the two are compared numerically (rtol/atol 2e-4).  Three further seeded
   inputs are tried as well; reproduced = any mismatch."""
   fn = globals()[family]
+  saved_tier = TIER['t']
+  TIER['t'] = 'thorough'        # the superset grid: contains every case of both tiers
   try:
     for seed in range(4):
       sym.set_concrete(True, model if seed == 0 else None, seed)
@@ -1102,6 +1129,7 @@ def replay_family(case=None, family=None, arg=None, model=None, **kw):
     return True
   finally:
     sym.set_concrete(False)
+    TIER['t'] = saved_tier
 
 
 
@@ -1143,6 +1171,7 @@ ASSUMPTIONS = (
 
 
 def obligations(tier):
+  TIER['t'] = tier
   F1 = qualnames(nn.Dense.__call__, nn.DenseGeneral.__call__, nn.Einsum.__call__,
                  nn.Embed.__call__, nn.Embed.attend, nnx.Linear.__call__,
                  nnx.LinearGeneral.__call__, nnx.Einsum.__call__,
